@@ -93,15 +93,21 @@ structure Block where
   mEnd : Option Nat
   deriving DecidableEq, Repr, Inhabited
 
+/-- `line.startswith('$$$$')` -/
+def isSep (l : Str) : Bool := startsWith l (sL "$$$$")
+
+/-- `line.startswith('M  END')` -/
+def isMEnd (l : Str) : Bool := startsWith l (sL "M  END")
+
 /-- the loop of `SDFRead._read_block`; returns the block and the lines left in the file -/
 def readBlockGo (bufSize : Nat) : Nat → List Str → Option Nat → List Str → R (Block × List Str)
   | _, buf, mEnd, [] => pure (⟨buf, mEnd⟩, [])
   | n, buf, mEnd, line :: rest =>
-    if startsWith line (sL "$$$$") then pure (⟨buf, mEnd⟩, rest)
+    if isSep line then pure (⟨buf, mEnd⟩, rest)
     else if n == bufSize then throw .bufferOverflow
     else
       let buf' := buf ++ [line]
-      let mEnd' := if mEnd.isNone && startsWith line (sL "M  END") then some buf'.length else mEnd
+      let mEnd' := if mEnd.isNone && isMEnd line then some buf'.length else mEnd
       readBlockGo bufSize (n + 1) buf' mEnd' rest
 
 /-- `_read_block(current=False)`: `EOFError` when nothing was collected -/
@@ -163,16 +169,17 @@ def hasInfix (p : Str) : Str → Bool
   | [] => p.isEmpty
   | c :: cs => p.isPrefixOf (c :: cs) || hasInfix p cs
 
+/-- positions (line numbers) following each line accepted by `hit`, scanning from line number `i` -/
+def positionsAfter (hit : Str → Bool) : Nat → List Str → List Nat
+  | _, [] => []
+  | i, l :: ls => if hit l then (i + 1) :: positionsAfter hit (i + 1) ls else positionsAfter hit (i + 1) ls
+
 /-- line indices at which records start according to `reset_index`: `grep -bE '^\$\$\$\$'` reports every line
 *starting with* `$$$$` (since the `fix:` commit a10377d; before, every line *containing* `$$$$` — `indexStartsOld`);
 a record starts after each such line; the last entry is popped. -/
-def indexStarts (file : List Str) : List Nat :=
-  let hits := (List.range file.length).filter fun i => startsWith (file.getD i []) (sL "$$$$")
-  (0 :: hits.map (· + 1)).dropLast
+def indexStarts (file : List Str) : List Nat := (0 :: positionsAfter isSep 0 file).dropLast
 
-def indexStartsOld (file : List Str) : List Nat :=
-  let hits := (List.range file.length).filter fun i => hasInfix (sL "$$$$") (file.getD i [])
-  (0 :: hits.map (· + 1)).dropLast
+def indexStartsOld (file : List Str) : List Nat := (0 :: positionsAfter (hasInfix (sL "$$$$")) 0 file).dropLast
 
 /-- the byte offset of line `i` (ASCII text), as stored in `_shifts`; a last line without `'\n'` counts one more
 because grep prints it with a newline -/
